@@ -556,4 +556,5 @@ def rule_17_8(rep, fx, bodies):
     dispatch.run_rule(rep, fx, 'R17.10', 'default', floor=2)
     dispatch.run_kinds(rep, fx, 'R17.11', 'security', prefix='', declare=True)
     dispatch.run_fresh_state(rep, fx, 'R17.12')
+    dispatch.run_secure_dispatch(rep, fx, 'R17.13')
 
